@@ -192,6 +192,16 @@ func genMixedLists(t *rapid.T, fileChance int) (lists []ListSpec, models []NetMo
 		models = append(models, m)
 		lines = append(lines, renderNet(t, m), renderNet(t, tw))
 	}
+	if chance(t, "shared-host-lines", 2) {
+		lines = append(lines, "0.0.0.0 shared.example alias1.example", "10.0.0.1 shared.example alias2.example", "::1 alias3.example shared.example")
+	}
+	if chance(t, "bucket-sharing-block", 2) {
+		// several rules in one shortcut bucket, and rules in other buckets that the same URLs reach later
+		for i := rapid.IntRange(3, 6).Draw(t, "bucket-size"); i > 0; i-- {
+			lines = append(lines, fmt.Sprintf("adsa6^$ctag=~u%d", i))
+		}
+		lines = append(lines, "adsgp", "/banner_ad", "adsgp^$ctag=~u9")
+	}
 	lines = shuffledKeepDup(t, lines)
 	lists = distribute(t, lines, rapid.IntRange(1, 3).Draw(t, "nlists"))
 	for i := range lists {
